@@ -44,6 +44,14 @@ def resolve(path: str):
         return None
 
 
+def opt(thunk):
+    """Evaluate an attribute chain lazily: a function that was refactored away yields None (probe skipped)."""
+    try:
+        return thunk()
+    except (AttributeError, KeyError, ImportError):
+        return None
+
+
 class Reach:
     CAP = 1_000_000
 
@@ -60,6 +68,7 @@ class Reach:
             code = _code_of(obj) if obj is not None else None
             if code is None:
                 rec.note(f"reach probe skipped (not found): {label}")
+                rec.observe(f"reach_skipped:{label}")
                 continue
             self.codes[code] = label
             self.entries[label] = 0
